@@ -34,8 +34,10 @@ type Obs = (Option<u64>, i64, u64);
 const LD: [Ordering; 3] = [Relaxed, Acquire, SeqCst];
 const ST: [Ordering; 3] = [Relaxed, Release, SeqCst];
 const RMW: [Ordering; 5] = [Relaxed, Acquire, Release, AcqRel, SeqCst];
-const CAS: [(Ordering, Ordering); 9] = [(Relaxed, Relaxed), (Acquire, Relaxed), (Acquire, Acquire), (Release, Relaxed), (AcqRel, Relaxed),
-    (AcqRel, Acquire), (SeqCst, Relaxed), (SeqCst, Acquire), (SeqCst, SeqCst)];
+// every valid (success, failure) pair: since Rust 1.64 the failure ordering may be stronger than the success ordering
+const CAS: [(Ordering, Ordering); 15] = [(Relaxed, Relaxed), (Acquire, Relaxed), (Acquire, Acquire), (Release, Relaxed), (AcqRel, Relaxed),
+    (AcqRel, Acquire), (SeqCst, Relaxed), (SeqCst, Acquire), (SeqCst, SeqCst), (Relaxed, Acquire), (Relaxed, SeqCst), (Release, Acquire),
+    (Release, SeqCst), (Acquire, SeqCst), (AcqRel, SeqCst)];
 
 macro_rules! int_runner {
     ($fname:ident, $atomic:ty, $t:ty, $mask:expr) => {
@@ -56,8 +58,8 @@ macro_rules! int_runner {
                     "store" => { a.store(x, ST[k % 3]); (None, -1) }
                     "with_mut" => { withmut!($atomic, a, x); (None, -1) }
                     "swap" => (Some(fr(a.swap(x, RMW[k % 5]))), -1),
-                    "compare_exchange" => match a.compare_exchange(x, y, CAS[k % 9].0, CAS[k % 9].1) { Ok(v) => (Some(fr(v)), 1), Err(v) => (Some(fr(v)), 0) },
-                    "compare_exchange_weak" => match a.compare_exchange_weak(x, y, CAS[k % 9].0, CAS[k % 9].1) { Ok(v) => (Some(fr(v)), 1), Err(v) => (Some(fr(v)), 0) },
+                    "compare_exchange" => match a.compare_exchange(x, y, CAS[k % 15].0, CAS[k % 15].1) { Ok(v) => (Some(fr(v)), 1), Err(v) => (Some(fr(v)), 0) },
+                    "compare_exchange_weak" => match a.compare_exchange_weak(x, y, CAS[k % 15].0, CAS[k % 15].1) { Ok(v) => (Some(fr(v)), 1), Err(v) => (Some(fr(v)), 0) },
                     "compare_and_swap" => (Some(fr(a.compare_and_swap(x, y, RMW[k % 5]))), -1),
                     "fetch_add" => (Some(fr(a.fetch_add(x, RMW[k % 5]))), -1),
                     "fetch_sub" => (Some(fr(a.fetch_sub(x, RMW[k % 5]))), -1),
@@ -69,7 +71,7 @@ macro_rules! int_runner {
                     "fetch_min" => (Some(fr(a.fetch_min(x, RMW[k % 5]))), -1),
                     "fetch_update" => {
                         let f = o.f.clone();
-                        let r = a.fetch_update(CAS[k % 9].0, CAS[k % 9].1, |v| match f.as_str() {
+                        let r = a.fetch_update(CAS[k % 15].0, CAS[k % 15].1, |v| match f.as_str() {
                             "inc" => Some(v.wrapping_add(1)),
                             "none" => None,
                             "zero" => Some(0),
@@ -128,8 +130,8 @@ macro_rules! bool_runner {
                     "unsync_load" => (Some(fr($ul(&a))), -1),
                     "store" => { a.store(x, ST[k % 3]); (None, -1) }
                     "swap" => (Some(fr(a.swap(x, RMW[k % 5]))), -1),
-                    "compare_exchange" => match a.compare_exchange(x, y, CAS[k % 9].0, CAS[k % 9].1) { Ok(v) => (Some(fr(v)), 1), Err(v) => (Some(fr(v)), 0) },
-                    "compare_exchange_weak" => match a.compare_exchange_weak(x, y, CAS[k % 9].0, CAS[k % 9].1) { Ok(v) => (Some(fr(v)), 1), Err(v) => (Some(fr(v)), 0) },
+                    "compare_exchange" => match a.compare_exchange(x, y, CAS[k % 15].0, CAS[k % 15].1) { Ok(v) => (Some(fr(v)), 1), Err(v) => (Some(fr(v)), 0) },
+                    "compare_exchange_weak" => match a.compare_exchange_weak(x, y, CAS[k % 15].0, CAS[k % 15].1) { Ok(v) => (Some(fr(v)), 1), Err(v) => (Some(fr(v)), 0) },
                     "compare_and_swap" => (Some(fr(a.compare_and_swap(x, y, RMW[k % 5]))), -1),
                     "fetch_and" => (Some(fr(a.fetch_and(x, RMW[k % 5]))), -1),
                     "fetch_nand" => (Some(fr(a.fetch_nand(x, RMW[k % 5]))), -1),
@@ -137,7 +139,7 @@ macro_rules! bool_runner {
                     "fetch_xor" => (Some(fr(a.fetch_xor(x, RMW[k % 5]))), -1),
                     "fetch_update" => {
                         let f = o.f.clone();
-                        let r = a.fetch_update(CAS[k % 9].0, CAS[k % 9].1, |v| match f.as_str() {
+                        let r = a.fetch_update(CAS[k % 15].0, CAS[k % 15].1, |v| match f.as_str() {
                             "inc" => Some(!v), "none" => None, "zero" => Some(false), _ => if v { Some(false) } else { None } });
                         match r { Ok(v) => (Some(fr(v)), 1), Err(v) => (Some(fr(v)), 0) }
                     }
@@ -171,12 +173,12 @@ macro_rules! ptr_runner {
                     "store" => { a.store(x, ST[k % 3]); (None, -1) }
                     "with_mut" => { $wm(&mut a, x); (None, -1) }
                     "swap" => (Some(fr(a.swap(x, RMW[k % 5]))), -1),
-                    "compare_exchange" => match a.compare_exchange(x, y, CAS[k % 9].0, CAS[k % 9].1) { Ok(v) => (Some(fr(v)), 1), Err(v) => (Some(fr(v)), 0) },
-                    "compare_exchange_weak" => match a.compare_exchange_weak(x, y, CAS[k % 9].0, CAS[k % 9].1) { Ok(v) => (Some(fr(v)), 1), Err(v) => (Some(fr(v)), 0) },
+                    "compare_exchange" => match a.compare_exchange(x, y, CAS[k % 15].0, CAS[k % 15].1) { Ok(v) => (Some(fr(v)), 1), Err(v) => (Some(fr(v)), 0) },
+                    "compare_exchange_weak" => match a.compare_exchange_weak(x, y, CAS[k % 15].0, CAS[k % 15].1) { Ok(v) => (Some(fr(v)), 1), Err(v) => (Some(fr(v)), 0) },
                     "compare_and_swap" => (Some(fr(a.compare_and_swap(x, y, RMW[k % 5]))), -1),
                     "fetch_update" => {
                         let f = o.f.clone();
-                        let r = a.fetch_update(CAS[k % 9].0, CAS[k % 9].1, |v| { let b = v as usize; match f.as_str() {
+                        let r = a.fetch_update(CAS[k % 15].0, CAS[k % 15].1, |v| { let b = v as usize; match f.as_str() {
                             "inc" => Some(b.wrapping_add(1) as *mut u8), "none" => None, "zero" => Some(std::ptr::null_mut()),
                             _ => if b & 1 == 1 { Some((b ^ 1) as *mut u8) } else { None } } });
                         match r { Ok(v) => (Some(fr(v)), 1), Err(v) => (Some(fr(v)), 0) }
@@ -233,23 +235,36 @@ fn main() {
         b.max_branches = 100_000;
         let iters = std::sync::Arc::new(std::sync::atomic::AtomicUsize::new(0));
         let it2 = iters.clone();
-        b.check(move || {
-            it2.fetch_add(1, SeqCst);
-            for i in start..end {
-                let s = &s2[i];
-                let r = run("loom", &s.t, bits(&s.init), &s.ops, i);
-                o2.lock().unwrap()[i] = Some(r);
-            }
-        });
-        if iters.load(SeqCst) != 1 {
+        // a panic of the code under test is data: the batch is reported, its sequences are not compared
+        let res = std::panic::catch_unwind(std::panic::AssertUnwindSafe(move || {
+            b.check(move || {
+                it2.fetch_add(1, SeqCst);
+                for i in start..end {
+                    let s = &s2[i];
+                    let r = run("loom", &s.t, bits(&s.init), &s.ops, i);
+                    o2.lock().unwrap_or_else(|e| e.into_inner())[i] = Some(r);
+                }
+            })
+        }));
+        if let Err(e) = res {
+            let msg = e.downcast_ref::<String>().cloned().or_else(|| e.downcast_ref::<&str>().map(|s| s.to_string())).unwrap_or_default();
+            let done = loom_obs.lock().unwrap_or_else(|e| e.into_inner()).iter().skip(start).take(end - start).filter(|o| o.is_some()).count();
+            let s = &seqs[(start + done).min(end - 1)];
+            mism.push(json!({"seq": start + done, "which": "loom", "type": s.t, "op": s.ops.iter().map(|o| o.op.clone()).collect::<Vec<_>>().join(","),
+                "what": format!("loom panicked: {}", msg.chars().take(200).collect::<String>())}));
+        } else if iters.load(SeqCst) != 1 {
             mism.push(json!({"seq": start, "which": "loom", "what": "single-threaded model ran more than one iteration", "iters": iters.load(SeqCst)}));
         }
         start = end;
     }
-    let loom_obs = loom_obs.lock().unwrap();
+    let loom_obs = loom_obs.lock().unwrap_or_else(|e| e.into_inner());
     for (i, s) in seqs.iter().enumerate() {
         nseq += 1;
-        for (which, (obs, fin)) in [("std", &std_obs[i]), ("loom", loom_obs[i].as_ref().unwrap())] {
+        let mut sides = vec![("std", &std_obs[i])];
+        if let Some(o) = loom_obs[i].as_ref() {
+            sides.push(("loom", o));
+        }
+        for (which, (obs, fin)) in sides {
             for (j, o) in s.ops.iter().enumerate() {
                 nops += 1;
                 let exp_r = if o.r.is_empty() { None } else { Some(bits(&o.r)) };
